@@ -18,13 +18,13 @@ import (
 // projected; TraceD2IR.tla applies the same declarations to its own state and compares.
 
 type irDecl struct {
-	K  string   `json:"k"`
-	P  []string `json:"p,omitempty"`
-	S  []string `json:"s,omitempty"`
-	D  []string `json:"d,omitempty"`
-	SA int      `json:"sa,omitempty"`
-	DA int      `json:"da,omitempty"`
-	I  int      `json:"i,omitempty"`
+	K   string   `json:"k"`
+	P   []string `json:"p,omitempty"`
+	S   []string `json:"s,omitempty"`
+	D   []string `json:"d,omitempty"`
+	SA  int      `json:"sa,omitempty"`
+	DA  int      `json:"da,omitempty"`
+	I   int      `json:"i,omitempty"`
 	A   string   `json:"a,omitempty"`
 	V   string   `json:"v,omitempty"`
 	Pat string   `json:"pat,omitempty"`
